@@ -24,13 +24,17 @@ def natToDigits (b n : Nat) : Str := (toDigitsRev b (n + 1) n).reverse
 
 /-! ### definitions -/
 
+def kwVectorLt : Str := "Vector<".toList
+def kwGtSemi : Str := ">;".toList
+
+
 /-- the type as written: the parser's `bitflags` is the TL `#` -/
-def tyText (t : Str) : Str := if t = "bitflags".toList then "#".toList else t
+def tyText (t : Str) : Str := if t = kwBitflags then kwHash else t
 
 def renderParam (p : Param) : Str :=
   p.name ++ ':' ::
-    ((if p.isOptional then "flags.".toList ++ natToDigits 10 p.bit ++ ['?'] else []) ++
-     (if p.isVector then "Vector<".toList ++ tyText p.type ++ ['>'] else tyText p.type))
+    ((if p.isOptional then kwFlags ++ natToDigits 10 p.bit ++ ['?'] else []) ++
+     (if p.isVector then kwVectorLt ++ tyText p.type ++ ['>'] else tyText p.type))
 
 /-- every parameter followed by one blank -/
 def renderParams : List Param → Str
@@ -38,7 +42,7 @@ def renderParams : List Param → Str
   | p :: ps => renderParam p ++ ' ' :: renderParams ps
 
 def renderResult (t : Str) (vec : Bool) : Str :=
-  if vec then "Vector<".toList ++ t ++ ">;".toList else t ++ [';']
+  if vec then kwVectorLt ++ t ++ kwGtSemi else t ++ [';']
 
 /-- `name#id p1:t1 p2:t2 = Result;` (no line end) -/
 def renderDef (d : Def) : Str :=
@@ -56,8 +60,8 @@ inductive Item where
   deriving Repr, DecidableEq
 
 def Item.render : Item → Str
-  | .types => "---types---\n".toList
-  | .functions => "---functions---\n".toList
+  | .types => kwTypes ++ ['\n']
+  | .functions => kwFunctions ++ ['\n']
   | .blank => ['\n']
   | .comment t => '/' :: '/' :: t ++ ['\n']
   | .defn d => renderDef d ++ ['\n']
@@ -97,15 +101,15 @@ structure WFParam (p : Param) : Prop where
   name_ok : NameOk p.name
   type_ok : TypeOk (tyText p.type)
   /-- a type that is not conditional must not look like a condition -/
-  no_flags_prefix : p.isOptional = false → p.isVector = false → ¬ "flags.".toList <+: tyText p.type
+  no_flags_prefix : p.isOptional = false → p.isVector = false → ¬ kwFlags <+: tyText p.type
   /-- a type that is not a vector must not look like one -/
-  no_vector_prefix : p.isVector = false → ¬ "Vector".toList <+: tyText p.type
+  no_vector_prefix : p.isVector = false → ¬ kwVector <+: tyText p.type
   /-- the bit index fits Go's `int` -/
   bit_lt : p.bit < 2 ^ 63
   bit_zero : p.isOptional = false → p.bit = 0
   /-- `bitflags` is what the parser calls the `#` type of the `flags` word, and only that -/
-  flags_word : p.type = "bitflags".toList → p.name = "flags".toList
-  not_hash : ¬ (p.name = "flags".toList ∧ p.type = "#".toList)
+  flags_word : p.type = kwBitflags → p.name = kwFlagsWord
+  not_hash : ¬ (p.name = kwFlagsWord ∧ p.type = kwHash)
   /-- comments are attached by `ParseSchema`, not by `parseDefinition` -/
   no_comment : p.comment = []
 
@@ -115,7 +119,7 @@ structure WFDef (d : Def) : Prop where
   crc_lt : d.crc < 2 ^ 32
   params_ok : ∀ p ∈ d.params, WFParam p
   result_ok : TypeOk d.eqType
-  no_vector_prefix : d.isEqVector = false → ¬ "Vector".toList <+: d.eqType
+  no_vector_prefix : d.isEqVector = false → ¬ kwVector <+: d.eqType
 
 def WFItem : Item → Prop
   | .comment t => '\n' ∉ t
@@ -123,5 +127,97 @@ def WFItem : Item → Prop
   | _ => True
 
 def WFItems (is : List Item) : Prop := ∀ i ∈ is, WFItem i
+
+/-- forgetting the documentation comments -/
+def Param.strip (p : Param) : Param := { p with comment := [] }
+def Obj.strip (o : Obj) : Obj := { o with comment := [], params := o.params.map Param.strip }
+def Method.strip (m : Method) : Method := { m with comment := [], params := m.params.map Param.strip }
+
+/-! ### schemas as documents: every definition with its annotations in front -/
+
+/-- no white space at either end (`strings.TrimSpace` leaves such a text alone) -/
+def Trimmed (c : Str) : Prop :=
+  (∀ a, c.head? = some a → isSpace a = false) ∧ (∀ b, c.getLast? = some b → isSpace b = false)
+
+/-- a non-empty run of runes none of which is white space -/
+def Word (w : Str) : Prop := w ≠ [] ∧ ∀ c ∈ w, isSpace c = false
+
+/-- `// @kind text` (no trailing blank when the text is empty) -/
+def annotText (kind text : Str) : Str := ' ' :: kind ++ (if text = [] then [] else ' ' :: text)
+
+def annot (kind text : Str) : Item := .comment (annotText kind text)
+
+/-- `name comment` of a `@param` line -/
+def paramText (name comment : Str) : Str := name ++ (if comment = [] then [] else ' ' :: comment)
+
+def Obj.toDef (o : Obj) : Def :=
+  { name := o.name, crc := o.crc, params := o.params.map Param.strip, eqType := o.iface, isEqVector := false }
+
+def Method.toDef (m : Method) : Def :=
+  { name := m.name, crc := m.crc, params := m.params.map Param.strip, eqType := m.respType, isEqVector := m.respIsList }
+
+/-- one `// @param name comment` line per parameter -/
+def paramAnnots (ps : List Param) : List Item :=
+  ps.map fun p => annot kwAtParam (paramText p.name p.comment)
+
+/-- a constructor: `// @type …` when its type has a comment, `// @constructor …`, the `@param` lines, the definition -/
+def objItems (tc : List (Str × Str)) (o : Obj) : List Item :=
+  (if mapGet tc o.iface = [] then [] else [annot kwAtType (mapGet tc o.iface)]) ++
+    annot kwAtConstructor o.comment :: (paramAnnots o.params ++ [.defn o.toDef])
+
+def methodItems (m : Method) : List Item :=
+  annot kwAtMethod m.comment :: (paramAnnots m.params ++ [.defn m.toDef])
+
+def Schema.toItems (a : Schema) : List Item :=
+  a.objects.flatMap (objItems a.typeComments) ++ .functions :: a.methods.flatMap methodItems
+
+/-- **the printer**: a schema as TL text, types section first, every definition annotated -/
+def render (a : Schema) : Str := renderItems a.toItems
+
+/-- a documentation comment as the parser can hand it back: trimmed, on one line -/
+def CommentOk (c : Str) : Prop := Trimmed c ∧ '\n' ∉ c
+
+structure WFAst (a : Schema) : Prop where
+  objs : ∀ o ∈ a.objects, WFDef o.toDef ∧ CommentOk o.comment ∧
+    (o.params.map (·.name)).Nodup ∧ ∀ p ∈ o.params, CommentOk p.comment
+  meths : ∀ m ∈ a.methods, WFDef m.toDef ∧ CommentOk m.comment ∧
+    (m.params.map (·.name)).Nodup ∧ ∀ p ∈ m.params, CommentOk p.comment
+  typeComments_ok : ∀ t, CommentOk (mapGet a.typeComments t)
+  /-- a type comment needs a constructor of that type to stand in front of -/
+  typeComments_used : ∀ t, mapGet a.typeComments t ≠ [] → ∃ o ∈ a.objects, o.iface = t
+
+/-! ### what a document declares (the specification side: no parser state involved) -/
+
+def Def.toObj (d : Def) : Obj := { name := d.name, crc := d.crc, params := d.params, iface := d.eqType }
+def Def.toMethod (d : Def) : Method :=
+  { name := d.name, crc := d.crc, params := d.params, respType := d.eqType, respIsList := d.isEqVector }
+
+/-- the constructors declared by the lines (those in a types section), in order; `fn`: the section
+the first line is in -/
+def declaredObjects : Bool → List Item → List Obj
+  | _, [] => []
+  | _, .types :: is => declaredObjects false is
+  | _, .functions :: is => declaredObjects true is
+  | fn, .blank :: is => declaredObjects fn is
+  | fn, .comment _ :: is => declaredObjects fn is
+  | fn, .defn d :: is => if fn then declaredObjects fn is else d.toObj :: declaredObjects fn is
+
+/-- the functions declared by the lines (the definitions in a functions section), in order -/
+def declaredMethods : Bool → List Item → List Method
+  | _, [] => []
+  | _, .types :: is => declaredMethods false is
+  | _, .functions :: is => declaredMethods true is
+  | fn, .blank :: is => declaredMethods fn is
+  | fn, .comment _ :: is => declaredMethods fn is
+  | fn, .defn d :: is => if fn then d.toMethod :: declaredMethods fn is else declaredMethods fn is
+
+/-- no constructor is declared with a `Vector<…>` result (the parser refuses that) -/
+def NoVectorTypes : Bool → List Item → Prop
+  | _, [] => True
+  | _, .types :: is => NoVectorTypes false is
+  | _, .functions :: is => NoVectorTypes true is
+  | fn, .blank :: is => NoVectorTypes fn is
+  | fn, .comment _ :: is => NoVectorTypes fn is
+  | fn, .defn d :: is => (fn = false → d.isEqVector = false) ∧ NoVectorTypes fn is
 
 end Mtv.Tlgen
